@@ -12,10 +12,11 @@ from astropy.time import Time
 import dask.array as da
 import pulsarbat as pb
 from harness import exact as X
+from harness.common import asked_before
 from harness.common import qlit, zlit, listlit
 
 VFILES = ['Gen/GenConsts.v', 'Lib/PySlice.v', 'Lib/Dft.v', 'Lib/DftC.v', 'Model/Band.v', 'Model/Shift.v', 'Model/Stft.v', 'Proofs/BandProofs.v',
-          'Proofs/StftProofs.v', 'Props/C20.v']
+          'Proofs/StftProofs.v', 'Gen/GenStft.v', 'Proofs/StftGen.v', 'Props/C20.v']
 REAL_AX = {'ClassicalDedekindReals.sig_forall_dec', 'ClassicalDedekindReals.sig_not_dec',
            'FunctionalExtensionality.functional_extensionality_dep', 'Classical_Prop.classic'}
 NAMES = ['fft', 'fft2', 'fftn', 'ifft', 'ifft2', 'ifftn', 'rfft', 'rfft2', 'rfftn', 'irfft', 'irfft2', 'irfftn', 'hfft', 'ihfft']
@@ -206,6 +207,8 @@ def run(ctx):
         z = getattr(pb, cls)(data, **kw)
         inp = dict(op='stft', cls=cls, nchan=nchan, P=P, L=L, align=align, sr=sr_hz, cf=cf_hz, dtype=str(data.dtype), has_start=start is not None)
         ctx.seen(inp); ctx.count('stft:P%d' % P); ctx.count('align:' + align)
+        if asked_before(ctx, rng, lambda: pb.contrib.istft(pb.contrib.stft(z, nperseg=P), nperseg=P)):
+            inp['asked_before'] = True
         try:
             s = pb.contrib.stft(z, nperseg=P)
         except Exception as e:
